@@ -5,17 +5,22 @@ import Rustemo.Proofs.FrontUsers
 -/
 namespace Rustemo.Front
 
-/-- hypotheses about names shared by the content theorems: files outside the classes
-`dupTerminal`, `helperCapture` (incl. `selfHelper`), `sepClash`, `reservedRule`, `emptyAlts` -/
+/-- hypotheses about names shared by the content theorems: files outside the classes `emptyAlts`,
+`dupTerminal`, `sepClash` (`inj`), `helperCapture` incl. `selfHelper` (`capture`), `reservedRule` — the last
+three only for variants that do not report them (`dupNameErr`, `helperClashErr`, `reservedErr`) -/
 structure Clean (fx : Fixes) (f : File) : Prop where
   alts : ∀ r, r ∈ f.ruleList → r.alts ≠ []
   dupT : fx.dupNameErr = true ∨ f.dupTerminal = false
-  uses : UsesOk fx (f.uses fx) (ruleNamesOf f)
-  helperTerm : ∀ u, u ∈ f.uses fx → u.helper fx ∉ kSTOP :: termNamesOf f
-  reserved : ∀ n, n ∈ ruleNamesOf f → n ≠ kEMPTY ∧ n ≠ kAUG ∧ n ≠ kAUGL
+  inj : ∀ u v, u ∈ f.uses fx → v ∈ f.uses fx → u.helper fx = v.helper fx → u = v
+  capture : fx.helperClashErr = true ∨
+    ∀ u, u ∈ f.uses fx → u.helper fx ∉ ruleNamesOf f ∧ u.helper fx ∉ kSTOP :: termNamesOf f
+  reserved : fx.reservedErr = true ∨ ∀ n, n ∈ ruleNamesOf f → n ≠ kEMPTY ∧ n ≠ kAUG ∧ n ≠ kAUGL
 
 theorem Clean.regular {fx : Fixes} {f : File} (h : Clean fx f) : Regular fx f := by
   refine ⟨h.alts, h.dupT, ?_⟩
+  rcases h.capture with hflag | hcap
+  · exact Or.inl hflag
+  right
   cases hs : f.selfHelper fx with
   | false => rfl
   | true =>
@@ -29,10 +34,43 @@ theorem Clean.regular {fx : Fixes} {f : File} (h : Clean fx f) : Regular fx f :=
       unfold rulesUses
       exact List.mem_flatMap.mpr ⟨r, hr, hu⟩
     have e' : u.helper fx = r.name := by simpa using e
-    apply h.uses.apart u hu'
+    apply (hcap u hu').1
     rw [e']
     unfold ruleNamesOf
     exact List.mem_map_of_mem (f := (·.name)) hr
+
+/-- the name facts the content proofs use: from the hypotheses, or from the checks a successful run of
+a repaired variant has passed -/
+theorem Clean.derived {fx : Fixes} {f : File} {g : Grammar} (hc : Clean fx f) (F : Facts fx f g) :
+    UsesOk fx (f.uses fx) (ruleNamesOf f) ∧ (∀ u, u ∈ f.uses fx → u.helper fx ∉ kSTOP :: termNamesOf f) ∧
+      (∀ n, n ∈ ruleNamesOf f → n ≠ kEMPTY ∧ n ≠ kAUG ∧ n ≠ kAUGL) := by
+  have hrl : f.ruleList = F.r0 :: F.rs := by simp [File.ruleList, F.hrules]
+  have hmm : staticMatches fx f = (ctxOf fx f F.ts).matchesMap := staticMatches_eq F.hts
+  have hcap : ∀ u, u ∈ f.uses fx → u.helper fx ∉ ruleNamesOf f ∧ u.helper fx ∉ kSTOP :: termNamesOf f := by
+    rcases hc.capture with hflag | hcap
+    · intro u hu
+      have hu' : u ∈ rulesUses (ctxOf fx f F.ts).matchesMap (F.r0 :: F.rs) := by
+        rw [← hmm, ← hrl, ← mem_file_uses]
+        exact hu
+      exact extract_clashFree (cx := ctxOf fx f F.ts) hflag F.hext u hu'
+    · exact hcap
+  refine ⟨⟨hc.inj, fun u hu => (hcap u hu).1⟩, fun u hu => (hcap u hu).2, ?_⟩
+  rcases hc.reserved with hflag | hres
+  · intro n hn
+    unfold ruleNamesOf at hn
+    rw [F.hrules] at hn
+    obtain ⟨r, hr, e⟩ := List.mem_map.mp hn
+    have hext := F.hext
+    unfold extract at hext
+    simp only at hext
+    have := ruleCheck_notReserved (ruleSteps_checked hext r hr)
+    have hfx : (ctxOf fx f F.ts).fx.reservedErr = true := hflag
+    rw [hfx] at this
+    simp only [Bool.true_and, List.contains_cons, List.contains_nil, Bool.or_false, Bool.or_eq_false_iff,
+      beq_eq_false_iff_ne, ne_eq] at this
+    rw [← e]
+    exact ⟨this.1, this.2.1, this.2.2⟩
+  · exact hres
 
 /-- what the production at index `i` of the built grammar has to be for the processed alternative `d`
 of a rule whose nonterminal has index `k` -/
@@ -72,7 +110,7 @@ theorem build_alternatives {fx : Fixes} {f : File} {g : Grammar} (hc : Clean fx 
     unfold ruleNamesOf
     rw [F.hrules]
     exact List.mem_map_of_mem hrm
-  have hUs := extract_users (cx := ctxOf fx f F.ts) hc.uses hw hsub hc.reserved F.hext
+  have hUs := extract_users (cx := ctxOf fx f F.ts) (hc.derived F).1 hw hsub (hc.derived F).2.2 F.hext
   -- the entry of the rule name
   have hpresent : n ∈ ntNames F.st.nts := by
     unfold ruleNamesOf at hn
@@ -117,14 +155,14 @@ theorem build_helpers_shared {fx : Fixes} {f : File} {g : Grammar} (hc : Clean f
     ∃ nu nv : NonTerm, g.nonterminals[nu.idx]? = some nu ∧ g.nonterminals[nv.idx]? = some nv ∧
       nu.name = u.helper fx ∧ nv.name = v.helper fx ∧ (nu.idx = nv.idx ↔ u = v) := by
   obtain ⟨F⟩ := build_facts hc.regular h
-  obtain ⟨nu, _, _, hnu, hnun, _⟩ := helper_core hc.regular hc.uses hc.helperTerm h F u hu
-  obtain ⟨nv, _, _, hnv, hnvn, _⟩ := helper_core hc.regular hc.uses hc.helperTerm h F v hv
+  obtain ⟨nu, _, _, hnu, hnun, _⟩ := helper_core hc.regular (hc.derived F).1 (hc.derived F).2.1 h F u hu
+  obtain ⟨nv, _, _, hnv, hnvn, _⟩ := helper_core hc.regular (hc.derived F).1 (hc.derived F).2.1 h F v hv
   refine ⟨nu, nv, hnu, hnv, hnun, hnvn, ?_⟩
   constructor
   · intro e
     rw [e, hnv] at hnu
     cases hnu
-    exact hc.uses.inj u v hu hv (hnun.symm.trans hnvn)
+    exact hc.inj u v hu hv (hnun.symm.trans hnvn)
   · rintro rfl
     -- both sit at the position of the unique entry named `u.helper`
     rw [F.nonterms] at hnu hnv
@@ -162,7 +200,7 @@ theorem build_sugar_opt {fx : Fixes} {f : File} {g : Grammar} (hc : Clean fx f) 
     ∃ (nt : NonTerm) (X : Nat), g.nonterminals[nt.idx]? = some nt ∧ nt.name = u.helper fx ∧ nt.annotation = none ∧
       IsSym g u.base X ∧ ∀ w, Derives g (g.nT + nt.idx) w ↔ w = [] ∨ Derives g X w := by
   obtain ⟨F⟩ := build_facts hc.regular h
-  obtain ⟨nt, s0, s1, hnt, hname, hann, hex, _, h0, h1⟩ := helper_core hc.regular hc.uses hc.helperTerm h F u hu
+  obtain ⟨nt, s0, s1, hnt, hname, hann, hex, _, h0, h1⟩ := helper_core hc.regular (hc.derived F).1 (hc.derived F).2.1 h F u hu
   unfold Use.names0 at h0
   unfold Use.names1 at h1
   unfold Use.ann at hann
@@ -184,7 +222,7 @@ theorem build_sugar_one {fx : Fixes} {f : File} {g : Grammar} (hc : Clean fx f) 
       ∀ w, Derives g (g.nT + nt.idx) w ↔
         ∃ ws : List (List Nat), ws ≠ [] ∧ (∀ x, x ∈ ws → Derives g X x) ∧ w = ws.flatten := by
   obtain ⟨F⟩ := build_facts hc.regular h
-  obtain ⟨nt, s0, s1, hnt, hname, hann, hex, hself, h0, h1⟩ := helper_core hc.regular hc.uses hc.helperTerm h F u hu
+  obtain ⟨nt, s0, s1, hnt, hname, hann, hex, hself, h0, h1⟩ := helper_core hc.regular (hc.derived F).1 (hc.derived F).2.1 h F u hu
   unfold Use.names0 at h0
   unfold Use.names1 at h1
   unfold Use.ann at hann
@@ -221,7 +259,7 @@ theorem build_sugar_one_sep {fx : Fixes} {f : File} {g : Grammar} (hc : Clean fx
         ∃ u0 pairs, Derives g X u0 ∧ (∀ q, q ∈ pairs → Derives g S q.1 ∧ Derives g X q.2) ∧
           w = joinPairs u0 pairs := by
   obtain ⟨F⟩ := build_facts hc.regular h
-  obtain ⟨nt, s0, s1, hnt, hname, hann, hex, hself, h0, h1⟩ := helper_core hc.regular hc.uses hc.helperTerm h F u hu
+  obtain ⟨nt, s0, s1, hnt, hname, hann, hex, hself, h0, h1⟩ := helper_core hc.regular (hc.derived F).1 (hc.derived F).2.1 h F u hu
   unfold Use.names0 at h0
   unfold Use.names1 at h1
   unfold Use.ann at hann
@@ -258,7 +296,7 @@ theorem build_sugar_zero {fx : Fixes} {f : File} {g : Grammar} (hc : Clean fx f)
       nt.annotation = some kVec ∧ IsSym g (helperName fx u.base .oneOrMore u.sep) H1 ∧
       ∀ w, Derives g (g.nT + nt.idx) w ↔ w = [] ∨ Derives g H1 w := by
   obtain ⟨F⟩ := build_facts hc.regular h
-  obtain ⟨nt, s0, s1, hnt, hname, hann, hex, _, h0, h1⟩ := helper_core hc.regular hc.uses hc.helperTerm h F u hu
+  obtain ⟨nt, s0, s1, hnt, hname, hann, hex, _, h0, h1⟩ := helper_core hc.regular (hc.derived F).1 (hc.derived F).2.1 h F u hu
   unfold Use.names0 at h0
   unfold Use.names1 at h1
   unfold Use.ann at hann
